@@ -141,4 +141,45 @@ theorem buildTrack_fuel (tk : Nat) (bs : Bytes) (b : BuildSt) : buildTrack tk bs
       exact hf hr
     | ok p => simp
 
+
+/-! ## the loop stack level never sinks below -1 ("no loop open")
+
+`handleEvent` indexes the loop stack with `stackLevel + 1` (as a `size_t` in the C++): that is only meaningful while the level is at least -1.
+(A level of -2 made the implementation push stack entries until memory ran out — fixed, see corpus/C01.) -/
+
+theorem stackDown_ge (lvl : Int) : -1 ≤ stackDown lvl := by
+  unfold stackDown; split <;> omega
+
+theorem curIdx_level (l : Loop) : l.curIdx.1.stackLevel = l.stackLevel := by
+  unfold Loop.curIdx; split
+  · rfl
+  · split <;> rfl
+
+theorem stackBreakN_level_ge : ∀ (n : Nat) (l : Loop), -1 ≤ l.stackLevel → -1 ≤ (stackBreakN n l).stackLevel
+  | 0, l, h => h
+  | n + 1, l, _ => by
+      unfold stackBreakN
+      exact stackBreakN_level_ge n _ (stackDown_ge _)
+
+theorem stackUpN_level_ge : ∀ (n : Nat) (l : Loop) (p : Position), -1 ≤ l.stackLevel → -1 ≤ (stackUpN n l p).stackLevel
+  | 0, l, _, h => h
+  | n + 1, l, p, h => by
+      unfold stackUpN
+      apply stackUpN_level_ge n
+      show -1 ≤ (Loop.curIdx { l with stackLevel := l.stackLevel + 1 }).1.stackLevel
+      rw [curIdx_level]
+      show -1 ≤ l.stackLevel + 1
+      omega
+
+theorem stackEndsN_level_ge : ∀ (n : Nat) (s : Seq) (t : Rat) (outs : List Out), -1 ≤ s.loop.stackLevel →
+    -1 ≤ (stackEndsN n s t outs).1.loop.stackLevel
+  | 0, s, _, _, h => h
+  | n + 1, s, t, outs, h => by
+      have hc := curIdx_level s.loop
+      unfold stackEndsN
+      simp only
+      repeat' split
+      all_goals first
+        | exact stackEndsN_level_ge n _ t outs (stackDown_ge _)
+        | (show -1 ≤ (Loop.curIdx s.loop).1.stackLevel; rw [hc]; exact h)
 end Opn.C01
